@@ -368,6 +368,8 @@ class Engine:
             "x": [f.values.copy() for f in substep.x.fields],
             "res": substep,
             "sv": self.statevars_snapshot(),
+            # the committed arrays themselves (a history kept by reference)
+            "sv_ref": [getattr(getattr(item, "results", None), "statevars", None) for item in self.w.items],
         }
         self.callbacks.append(rec)
         for m in self.monitors:
@@ -462,6 +464,13 @@ class Engine:
 
                 raise HarnessError("".join(traceback.format_exception(e))[-3000:]) from e
             exc = e
+        for k_, sv0 in getattr(self.w, "given_statevars", {}).items():
+            if np.any(sv0 != 0):
+                raise Misbehaviour("caller-data", f"the array of initial state variables handed to item {k_} (owned by the caller) was modified while the job ran", site="SolidBody.statevars")
+        for rec in self.callbacks:
+            for k_, (ref, snap) in enumerate(zip(rec.get("sv_ref", []), rec["sv"])):
+                if ref is not None and snap is not None and adigest(ref) != snap[1]:
+                    raise Misbehaviour("caller-data", f"the state-variable array of item {k_} committed at substep ({rec['step']},{rec['substep']}) was modified in place later (a history kept by reference changes)", site="Results.statevars")
         for j, arr, dig in tables:
             if adigest(arr) != dig:
                 raise Misbehaviour("caller-data", f"the ramp table of step {j} (an array owned by the caller) was modified while the job ran", site="Step.ramp")
